@@ -264,7 +264,7 @@ func behCheck(prop, tier string) (*Outcome, error) {
 			}
 			if len(out.Violations) < 50 {
 				out.Violations = append(out.Violations, Violation{ID: m.ID, Payload: m,
-					Summary: fmt.Sprintf("%s/%s [%s] grammar `%s` entry=%q input=%s nomemo=%v: want %s, got %s", m.Kind, m.Family, m.Variant, m.Grammar, m.Entry, m.Input, m.NoMemo, m.Want, m.Got)})
+					Summary: fmt.Sprintf("%s/%s [%s] grammar `%s` entry=%q input=%s nomemo=%v: want %s, got %s", m.Kind, m.Family, m.Variant, m.Grammar, m.Entry, clipS(m.Input, 160), m.NoMemo, clipS(m.Want, 1500), clipS(m.Got, 1500))})
 			}
 		}
 		out.ViolationN += int(r.UnknownN[prop])
